@@ -17,11 +17,13 @@ let () =
   (match cmd with
    | "views" ->
        let c = { Views.maxrank = geti "--maxrank" 4; maxops = geti "--maxops" 6; rebased = has "--rebased"; maxd = 6 } in
+       let twin = Buffer.create 65536 in
        for k = 1 to count do
-         let kinds = Views.gen_case c (Printf.sprintf "%s%d" (get "--prefix" "v" args) k) prog obs in
+         let kinds = Views.gen_case ~twin c (Printf.sprintf "%s%d" (get "--prefix" "v" args) k) prog obs in
          bump (Printf.sprintf "len%d" (List.length kinds));
          List.iter bump kinds
-       done
+       done;
+       (match get "--twin" "" args with "" -> () | f -> let oc = open_out f in Buffer.output_buffer oc twin; close_out oc)
    | "iters" ->
        let c = { Views.maxrank = geti "--maxrank" 4; maxops = geti "--maxops" 4; rebased = has "--rebased"; maxd = 6 } in
        let maxsteps = geti "--maxsteps" 12 in
